@@ -5,6 +5,7 @@ import (
 	"fmt"
 	"math/rand"
 	"reflect"
+	"strings"
 	"time"
 
 	"reduction.dev/reduction/util/verifhook"
@@ -33,6 +34,8 @@ func noteOutcome(diverged bool) {
 	}
 }
 
+var errSerialised = fmt.Errorf("flushers serialised by the code")
+
 type drift struct{ msg string }
 
 func (d *drift) Error() string { return d.msg }
@@ -40,13 +43,14 @@ func (d *drift) Error() string { return d.msg }
 func driftf(f string, a ...any) error { return &drift{fmt.Sprintf(f, a...)} }
 
 type stepper struct {
-	w          *world
-	parked     map[string]*gate.Arrival // "c" / "t": at flush.enter or flush.between
-	fetchG     map[int]*gate.Arrival    // model seq -> fetch goroutine (at fetch.call or fetch.beforeDrain)
-	lread      *gate.Arrival            // event loop parked in ReadEvents
-	eoi        bool
-	inflight   [][]*gate.Arrival // per operator: HandleEventBatch calls held at the gate (correct code: at most one)
-	blockedGid int64
+	w           *world
+	parked      map[string]*gate.Arrival // "c" / "t": at flush.enter or flush.between
+	fetchG      map[int]*gate.Arrival    // model seq -> fetch goroutine (at fetch.call or fetch.beforeDrain)
+	lread       *gate.Arrival            // event loop parked in ReadEvents
+	eoi         bool
+	inflight    [][]*gate.Arrival // per operator: HandleEventBatch calls held at the gate (correct code: at most one)
+	blockedGid  int64
+	adversarial bool
 }
 
 func shapeOf(in *mbt.Input) Shape {
@@ -261,6 +265,25 @@ func (s *stepper) step(st mbt.Step) error {
 		}
 		delete(s.parked, g)
 		a.Release()
+		other := map[string]string{"c": "t", "t": "c"}[g]
+		if o := s.parked[other]; s.adversarial && o != nil && o.Point == "batching.flush.between" {
+			// the model (AtomicFlush = FALSE) lets g take a batch while the other
+			// flusher sits between Flush and Reserve; correct code blocks g here
+			b, err := s.w.s.Await(func(a *gate.Arrival) bool {
+				return (a.Point == "batching.flush.between" || a.Point == "batching.flush.exit") && s.who(a) == g
+			}, 80*time.Millisecond)
+			if err != nil {
+				return errSerialised
+			}
+			if b.Point == "batching.flush.between" {
+				s.parked[g] = b
+				return nil
+			}
+			if g == "c" {
+				return s.afterL(st.Bool("full"))
+			}
+			return nil
+		}
 		if len(st.List("took")) == 0 {
 			if _, err := s.awaitFlusher(g, "batching.flush.exit"); err != nil {
 				return driftf("KTake(%s, empty): %v", g, err)
@@ -432,7 +455,15 @@ func remaining(sh Shape, start []int) int {
 	return n
 }
 
+// enough witnesses: after a few violations the remaining behaviours of this
+// process are not replayed (each diverging behaviour costs seconds).
+var found = 0
+
 func replay(bi int, beh []mbt.Step, in *mbt.Input, res *mbt.Result) {
+	if found >= 3 {
+		res.Count("skipped_after_violations", 1)
+		return
+	}
 	sh := shapeOf(in)
 	useTimer := in.CfgBool("UseTimer", true)
 	delay := time.Duration(0)
@@ -450,14 +481,19 @@ func replay(bi int, beh []mbt.Step, in *mbt.Input, res *mbt.Result) {
 	defer w.close()
 	s := &stepper{w: w, parked: map[string]*gate.Arrival{}, fetchG: map[int]*gate.Arrival{}, inflight: make([][]*gate.Arrival, sh.NOps)}
 	viol := func(prop string, si int, what string, o *runObs) {
-		res.Violations = append(res.Violations, mbt.Violation{Property: prop, Behaviour: bi, Step: si, What: what,
-			Observed: map[string]any{"streams": fmtStreams(o.streams), "read_order": fmt.Sprint(o.order), "checkpoints": o.ckpts}})
+		found++
+		for _, p := range strings.Split(prop, "+") {
+			res.Violations = append(res.Violations, mbt.Violation{Property: p, Behaviour: bi, Step: si, What: what,
+				Observed: map[string]any{"streams": fmtStreams(o.streams), "read_order": fmt.Sprint(o.order), "checkpoints": o.ckpts}})
+		}
 	}
 	if err := s.awaitRead(); err != nil {
 		res.Errors = append(res.Errors, "boot: "+err.Error())
 		return
 	}
 	diverged := ""
+	serialised := false
+	s.adversarial = in.CfgBool("Adversarial", false)
 	for si, st := range beh {
 		if st.Str("a") == "KTake" && st.Str("g") == "t" && s.parked["t"] == nil {
 			a, err := s.awaitFlusher("t", "batching.flush.enter")
@@ -468,6 +504,11 @@ func replay(bi int, beh []mbt.Step, in *mbt.Input, res *mbt.Result) {
 			s.parked["t"] = a
 		}
 		if err := s.step(st); err != nil {
+			if err == errSerialised {
+				res.Count("serialised", 1)
+				serialised = true
+				break
+			}
 			if _, ok := err.(*drift); ok {
 				diverged = fmt.Sprintf("s%d %s: %v", si, st.Str("a"), err)
 				break
@@ -482,6 +523,7 @@ func replay(bi int, beh []mbt.Step, in *mbt.Input, res *mbt.Result) {
 			return
 		}
 	}
+	_ = serialised
 	noteOutcome(diverged != "")
 	o := finish(w, remaining(sh, w.o.Start))
 	if p, what := o.safety(); what != "" {
@@ -515,6 +557,7 @@ func replay(bi int, beh []mbt.Step, in *mbt.Input, res *mbt.Result) {
 			return
 		}
 		if what := restartUnion(sh, c.N, o.streams, o2.streams); what != "" {
+			found++
 			res.Violations = append(res.Violations, mbt.Violation{Property: "C16", Behaviour: bi, Step: len(beh), What: what + divNote(diverged),
 				Observed: map[string]any{"run1": fmtStreams(o.streams), "positions": c.Pos, "run2": fmtStreams(o2.streams)}})
 			return
